@@ -142,6 +142,13 @@ class CFG:
         self._loops = res
         return res
 
+    def loop_blocks_of(self, b):
+        s = set()
+        for h, blocks, _ in self.loops():
+            if b in blocks:
+                s |= blocks
+        return s
+
     def loop_headers(self):
         return {h for h, _, _ in self.loops()}
 
